@@ -252,6 +252,58 @@ def bmp_save_groups(ctx, dim):
                         replay=Replay(mode='bmp_roundtrip', extra=['in_alpha=0x%X' % alpha], **RP)))
     return gs
 
+# ---------------------------------------------------------------------------------------------------------------------
+# BMP loader: header part, dispatch constants; struct layout; save -> load lemma
+# ---------------------------------------------------------------------------------------------------------------------
+def bmp_header_unit(ctx, src):
+    u = Unit(ctx, 'bmp_header')
+    rules = [
+        Rule(r'WindowsBitmapHeader header = \{\};', 'WindowsBitmapHeader header; memset(&header, 0, sizeof(header));', count=1, regex=True),
+        Rule(r'\bfreadx\(([^;]*)\);', r'C06_freadx(\1); if (verif_exc) return;', count=3, regex=True),
+        Rule(r'(C06_freadx\(f, &header\.info_header\.header_size, 4\); if \(verif_exc\) return;)', r'\1 g_hsize = header.info_header.header_size;', count=1, regex=True),
+        Rule(r'\bfseek\(f, ([^,;]*), SEEK_SET\)', r'C06_fseek_set(f, \1)', count=1, regex=True),
+    ]
+    emit_range(u, src, CC, LOAD, r'WindowsBitmapHeader header = \{\};', ('before', r'unique_ptr<void, void \(\*\)\(void\*\)> new_data_unique'),
+               'void Image_load_bmp_header(FILE* f, const char* sig, WindowsBitmapHeader* out_header, int32_t* out_w, int32_t* out_h, bool* out_rev)',
+               rules=rules, ret_zero='', tail='*out_header = header; *out_w = w; *out_h = h; *out_rev = reverse_row_order; (void)has_alpha;')
+    u.write()
+    return u
+
+
+def dispatch_codes(src):
+    """the two biCompression codes the loader dispatches on (the blocks above are located by these very `if`s)"""
+    _, body, _ = fbody(src, CC, LOAD)
+    a = one(r'(?<!else )if \(header\.info_header\.compression == (\w+)\)', body, 'BI_RGB dispatch').group(1)
+    b = one(r'else if \(header\.info_header\.compression == (\w+)\)', body, 'BI_BITFIELDS dispatch').group(1)
+    return a, b
+
+
+def bmp_misc_groups(ctx, src, dim):
+    rgb, bf = dispatch_codes(src)
+    codes = ['C06_LOAD_RGB_CODE=%s' % rgb, 'C06_LOAD_BF_CODE=%s' % bf]
+    gs = [
+        Group(name='Image.bmp.header_layout', harness='harness/C06/bmp_misc.c', entry='h_layout', function='WindowsBitmapFileHeader / InfoHeader / Header',
+              defines=codes, kind='loop-free', min_post=10,
+              clause_note='sizeof / offsetof of every header field equal the offsets of BITMAPFILEHEADER + BITMAPV5HEADER; SIZE24 == 40; the loader '
+                          'dispatches on biCompression 0 (BI_RGB) and 3 (BI_BITFIELDS)'),
+        Group(name='Image.load.bmp.header', harness='harness/C06/bmp_misc.c', entry='h_header', function='Image::load (BMP header part)',
+              enforce='Image_load_bmp_header', defines=codes + ['C06_HEADER=1'], kind='loop-free', timeout=300, object_bits=12,
+              clause_note='every freadx target lies inside the header object for every biSize the file can announce; accepted: 40 <= biSize <= 124, '
+                          '24/32 bpp, 1 plane; w, h, row order and seek position taken from the header; io_error on a short file',
+              replay=Replay(mode='bmp_load', extra=['in_w=0x1', 'in_h=0x1', 'in_depth=0x18', 'in_comp=0x0'], **RP)),
+    ]
+    for alpha in (0, 1):
+        gs.append(Group(name='Image.bmp.save_load_identity[alpha=%d]' % alpha, harness='harness/C06/bmp_misc.c', entry='l_roundtrip',
+                        function='Image::save_helper (WINDOWS_BITMAP) ; Image::load (BMP)',
+                        replace=['Image_save_bmp', 'Image_load_bmp_rgb', 'Image_load_bmp_bitfields'],
+                        defines=codes + ['C06_DIM=%d' % dim, 'C06_ALPHA=%d' % alpha, 'C06_SAVE=1', 'C06_DECODE_BMP_HEADER=1', 'C06_LEMMA=1'], kind='lemma',
+                        bound='the two loop contracts it composes are proved for width, height in 1..%d' % dim,
+                        timeout=300, object_bits=12, min_post=3,
+                        clause_note='over the saver and loader contracts: the header the saver emits selects a loader branch that reads channel c of pixel '
+                                    '(x,y) from exactly the stream position where the saver put it; alpha flag, consumed == emitted bytes',
+                        replay=Replay(mode='bmp_roundtrip', extra=['in_alpha=0x%X' % alpha], **RP)))
+    return gs
+
 
 def plan(ctx):
     src = Source(ctx.src)
@@ -268,6 +320,9 @@ def plan(ctx):
     ubs = bmp_save_unit(ctx, src)
     ctx.functions_under_contract += ubs.functions
     groups += bmp_save_groups(ctx, dim)
+    ubh = bmp_header_unit(ctx, src)
+    ctx.functions_under_contract += ubh.functions
+    groups += bmp_misc_groups(ctx, src, dim)
     return groups
 
 
